@@ -2,7 +2,6 @@ package main
 
 import (
 	"go/ast"
-	"go/token"
 	"strings"
 )
 
@@ -290,5 +289,3 @@ func simplifyLet(s string) string {
 	}
 	return s
 }
-
-var _ = token.ADD
